@@ -228,6 +228,7 @@ type Node struct {
 // Component is one `templ` function of a file.
 type Component struct {
 	Name   string
+	Code   bool // hand-written Go component (helpers.go): captures its children into its own buffer and writes them inside <q>…</q>
 	Callee bool // takes (a A, p string); main components take (a A)
 	Body   []*Node
 	End    Sep
@@ -248,7 +249,7 @@ type Program struct {
 // ----- classification used by the gap rule
 
 var blockNames = []string{"div", "p", "ul", "li", "section", "h1"}
-var inlineNames = []string{"span", "b", "i", "em", "strong", "code", "label"}
+var inlineNames = []string{"span", "b", "i", "em", "strong", "code", "label", "my-chip", "x-tag"}
 var voidInline = []string{"img", "input"}
 var voidBlock = []string{"br", "hr"}
 
